@@ -261,39 +261,463 @@ def coq_bg_case(c, out):
         lp(c['px']), lp(c['py']), REPS.index(c['rx']), REPS.index(c['ry']), qlit(F(c['paw'])), qlit(F(c['pah'])), o)
 
 
+
+# ------------------------------------------------------------------------------------------------ render monitor
+
+CBW, CBH = 200, 120
+# finding H: optimize_images re-encodes JPEGs at quality 75 although documented lossless; set True once fixed
+OPTIMIZE_IS_LOSSLESS_FOR_JPEG = False
+
+
+def gen_pool(rng):
+    pool = {}
+    for k in range(rng.choice([2, 3, 3, 4])):
+        r = rng.random()
+        seed = rng.randrange(10 ** 6)
+        if r < 0.5:
+            mode = rng.choice(['L', 'LA', 'RGB', 'RGBA', 'P', '1'])
+            pool['im%d.png' % k] = dict(kind='png', mode=mode, w=rng.randint(1, 12), h=rng.randint(1, 12), seed=seed,
+                                        trns=(mode == 'P' and rng.random() < 0.4))
+        elif r < 0.75:
+            pool['im%d.jpg' % k] = dict(kind='jpeg', mode=rng.choice(['L', 'RGB', 'CMYK']), w=rng.randint(1, 16), h=rng.randint(1, 16),
+                                        seed=seed, quality=rng.choice([60, 90, 100]))
+        else:
+            pat = rng.choice(['wh', 'wh', 'whv', 'v', 'wv', 'hv', 'w', 'h', ''])
+            pool['im%d.svg' % k] = dict(kind='svg', seed=seed, w=rng.choice([8, 20, 33]) if 'w' in pat else None,
+                                        h=rng.choice([6, 10, 25]) if 'h' in pat else None,
+                                        vb=[rng.choice([10, 20, 7]), rng.choice([10, 5, 9])] if 'v' in pat else None)
+    return pool
+
+
+def intrinsic_of(spec, res):
+    """what CSS / SVG say the intrinsic (width, height, ratio) are, from the generator's parameters"""
+    if spec['kind'] != 'svg':
+        return (F(spec['w']) / res, F(spec['h']) / res, F(spec['w'], spec['h']))
+    w = None if spec['w'] is None else F(spec['w'])
+    h = None if spec['h'] is None else F(spec['h'])
+    if w is not None and h is not None:
+        return (w, h, w / h)
+    if spec['vb']:
+        ratio = F(spec['vb'][0], spec['vb'][1])
+        if w is not None:
+            h = w / ratio
+        elif h is not None:
+            w = h * ratio
+        return (w, h, ratio)
+    return (w, h, None)
+
+
+def css_len(v):
+    return 'auto' if v is None else '%s%s' % (v[1], 'px' if v[0] == 'px' else '%')
+
+
+def gen_dim(rng, auto=0.45):
+    r = rng.random()
+    if r < auto:
+        return None
+    if r < auto + (1 - auto) * 0.6:
+        return ('px', str(rng.choice([0, 10, 30, 57, 150, 250])))
+    return ('pct', str(rng.choice([10, 50, 100, 130])))
+
+
+def gen_pos(rng):
+    r = rng.random()
+    if r < 0.6:
+        return ('pct', str(rng.choice([0, 25, 50, 100, 100, 130])))
+    return ('px', str(rng.choice([-5, 0, 7, 30])))
+
+
+def gen_replaced_use(rng, k, pool):
+    name = rng.choice(sorted(pool))
+    spec = pool[name]
+    tag = rng.choice(['img', 'img', 'img', 'object', 'embed', 'content', 'marker'])
+    if tag == 'marker' and spec['kind'] == 'svg' and (spec['w'] is None or spec['h'] is None):
+        tag = 'img'
+    display = rng.choice(['inline', 'inline', 'block', 'inline-block', 'float', 'abs'])
+    definite = display == 'abs' or rng.random() < 0.5
+    u = dict(kind='replaced', id='u%d' % k, name=name, tag=tag, display=display, definite=definite,
+             width=None, height=None, minw=None, minh=None, maxw=None, maxh=None, fit='fill', right=False, bottom=False,
+             px=('pct', '50'), py=('pct', '50'), res=None, pixelated=rng.random() < 0.15)
+    if tag == 'content':
+        u['display'] = 'inline'
+    if tag not in ('marker', 'content'):
+        u['width'], u['height'] = gen_dim(rng), gen_dim(rng)
+        for key in ('minw', 'minh', 'maxw', 'maxh'):
+            u[key] = gen_dim(rng, 0.75)
+        u['fit'] = rng.choice(FITS)
+        if rng.random() < 0.7:
+            u['px'], u['py'] = gen_pos(rng), gen_pos(rng)
+            u['right'], u['bottom'] = rng.random() < 0.3, rng.random() < 0.3
+        if rng.random() < 0.3:
+            u['res'] = rng.choice(['2', '0.5', '4'])
+    return u
+
+
+def gen_bg_use(rng, k, pool):
+    name = rng.choice(sorted(pool))
+    def one():
+        return gen_dim(rng, 0.4)
+    size = rng.choice(['auto', 'contain', 'cover', 'pair', 'pair', 'pair'])
+    return dict(kind='bg', id='bg%d' % k, name=name, W=rng.choice([100, 157]), H=rng.choice([60, 90]), P=rng.choice([0, 7]),
+                B=rng.choice([0, 3]), size=[one(), one()] if size == 'pair' else ([None, None] if size == 'auto' else size),
+                px=gen_pos(rng), py=gen_pos(rng), right=rng.random() < 0.3, bottom=rng.random() < 0.3,
+                rx=rng.choice(REPS), ry=rng.choice(REPS), origin=rng.choice(['padding-box', 'border-box', 'content-box']),
+                clip=rng.choice(['border-box', 'padding-box', 'content-box']), res=rng.choice([None, None, '2']),
+                pixelated=rng.random() < 0.15)
+
+
+def use_html(u):
+    url = u['name']
+    if u['kind'] == 'bg':
+        size = u['size'] if isinstance(u['size'], str) else '%s %s' % (css_len(u['size'][0]), css_len(u['size'][1]))
+        pos = '%s %s %s %s' % ('right' if u['right'] else 'left', css_len(u['px']), 'bottom' if u['bottom'] else 'top', css_len(u['py']))
+        st = ('width:%dpx;height:%dpx;padding:%dpx;border:%dpx solid #ccc;margin:0 0 5px 0;background-image:url(%s);'
+              'background-size:%s;background-position:%s;background-repeat:%s %s;background-origin:%s;background-clip:%s'
+              % (u['W'], u['H'], u['P'], u['B'], url, size, pos, u['rx'], u['ry'], u['origin'], u['clip']))
+        if u['res']:
+            st += ';image-resolution:%sdppx' % u['res']
+        if u['pixelated']:
+            st += ';image-rendering:pixelated'
+        return '<div id="%s" style="%s"></div>' % (u['id'], st)
+    st = []
+    for prop, key in (('width', 'width'), ('height', 'height'), ('min-width', 'minw'), ('min-height', 'minh'),
+                      ('max-width', 'maxw'), ('max-height', 'maxh')):
+        if u[key] is not None:
+            st.append('%s:%s' % (prop, css_len(u[key])))
+    st.append('object-fit:%s' % u['fit'])
+    st.append('object-position:%s %s %s %s' % ('right' if u['right'] else 'left', css_len(u['px']),
+                                               'bottom' if u['bottom'] else 'top', css_len(u['py'])))
+    if u['res']:
+        st.append('image-resolution:%sdppx' % u['res'])
+    if u['pixelated']:
+        st.append('image-rendering:pixelated')
+    d = u['display']
+    if d == 'float':
+        st.append('float:left')
+    elif d == 'abs':
+        st.append('position:absolute;left:3px;top:4px')
+    elif d != 'inline':
+        st.append('display:%s' % d)
+    style = ';'.join(st)
+    cont = 'width:%dpx;%sposition:relative;margin:0 0 5px 0;overflow:hidden' % (CBW, 'height:%dpx;' % CBH if u['definite'] else '')
+    tag = u['tag']
+    if tag == 'img':
+        inner = '<img id="%s" src="%s" style="%s">' % (u['id'], url, style)
+    elif tag == 'object':
+        inner = '<object id="%s" data="%s" style="%s"></object>' % (u['id'], url, style)
+    elif tag == 'embed':
+        inner = '<embed id="%s" src="%s" style="%s">' % (u['id'], url, style)
+    elif tag == 'content':
+        inner = '<style>#%s::before{content:url(%s);%s}</style><span id="%s">ab</span>' % (
+            u['id'], url, 'image-rendering:pixelated' if u['pixelated'] else '', u['id'])
+    else:
+        inner = '<ul style="margin:0;padding:0 0 0 60px"><li id="%s" style="list-style-image:url(%s);%s">ab</li></ul>' % (
+            u['id'], url, 'image-rendering:pixelated' if u['pixelated'] else '')
+    return '<div style="%s">%s</div>' % (cont, inner)
+
+
+def gen_monitor_doc(rng):
+    pool = gen_pool(rng)
+    uses = []
+    for k in range(rng.choice([3, 5, 7])):
+        uses.append(gen_bg_use(rng, k, pool) if rng.random() < 0.3 else gen_replaced_use(rng, k, pool))
+    html = ('<style>@page{size:400px 4000px;margin:0}html,body{margin:0;padding:0;font-family:weasyprint;font-size:10px;'
+            'line-height:10px}</style>' + ''.join(use_html(u) for u in uses))
+    r = rng.random()
+    opts = {}
+    if r < 0.12:
+        opts = {'optimize_images': True}
+    elif r < 0.18:
+        opts = {'jpeg_quality': 30}
+    elif r < 0.24:
+        opts = {'dpi': 20}
+    return dict(images=pool, uses=uses, html=html, pdf_options=dict(opts, uncompressed_pdf=rng.random() < 0.5))
+
+
+def fixed_docs():
+    """witnesses of the defects found while building this check (A-F, all fixed in /repo): always rendered"""
+    pool = {'r.png': dict(kind='png', mode='RGB', w=10, h=10, seed=1, trns=False),
+            'w.png': dict(kind='png', mode='RGBA', w=4, h=2, seed=2, trns=False),
+            'vb.svg': dict(kind='svg', seed=3, w=None, h=None, vb=[20, 10]),
+            'wo.svg': dict(kind='svg', seed=4, w=50, h=None, vb=None)}
+    def rep(k, name, **kw):
+        u = dict(kind='replaced', id='u%d' % k, name=name, tag='img', display='inline', definite=False, width=None, height=None,
+                 minw=None, minh=None, maxw=None, maxh=None, fit='fill', right=False, bottom=False, px=('pct', '50'),
+                 py=('pct', '50'), res=None, pixelated=False)
+        u.update(kw)
+        return u
+    def bg(k, name, **kw):
+        u = dict(kind='bg', id='bg%d' % k, name=name, W=100, H=90, P=0, B=0, size=[None, None], px=('pct', '0'), py=('pct', '0'),
+                 right=False, bottom=False, rx='repeat', ry='repeat', origin='padding-box', clip='border-box', res=None,
+                 pixelated=False)
+        u.update(kw)
+        return u
+    uses = [rep(0, 'vb.svg', display='abs', definite=True),                                   # A
+            rep(1, 'r.png', height=('pct', '50'), maxh=('px', '10')),                         # B
+            rep(2, 'r.png', height=('px', '200'), maxh=('px', '100')),                        # C
+            rep(3, 'r.png', height=('px', '20'), minh=('px', '50')),                          # C
+            rep(4, 'wo.svg', maxw=('px', '25')),                                              # D
+            bg(5, 'w.png', H=0, size='contain', rx='round', ry='round'),                      # E
+            bg(6, 'w.png', size=[('px', '0'), None], rx='round', ry='no-repeat'),             # E
+            bg(7, 'w.png', right=True, rx='no-repeat', ry='round'),                           # F
+            bg(8, 'w.png', px=('pct', '50'), py=('px', '5'), bottom=True, rx='round', ry='no-repeat')]   # F
+    html = ('<style>@page{size:400px 4000px;margin:0}html,body{margin:0;padding:0;font-family:weasyprint;font-size:10px;'
+            'line-height:10px}</style>' + ''.join(use_html(u) for u in uses))
+    return [dict(images=pool, uses=uses, html=html, pdf_options={'uncompressed_pdf': True})]
+
+
+def resolve_len(v, ref, default):
+    if v is None:
+        return default
+    if v[0] == 'px':
+        return F(v[1])
+    return default if ref is None else F(v[1]) * ref / 100
+
+
+def fq(x):
+    """observed float/int -> exact Fraction literal"""
+    return qlit(F(x))
+
+
+def coq_mon_case(u, spec, box, draw):
+    res = F(u['res']) if u['res'] and spec['kind'] != 'svg' else F(1)
+    i3 = intrinsic_of(spec, res)
+    hdef = F(CBH) if u['definite'] else None
+    cw = resolve_len(u['width'], F(CBW), None)
+    ch = resolve_len(u['height'], hdef, None)
+    minw = resolve_len(u['minw'], F(CBW), F(0))
+    minh = resolve_len(u['minh'], hdef, F(0))
+    maxw = resolve_len(u['maxw'], F(CBW), None)
+    maxh = resolve_len(u['maxh'], hdef, None)
+    d = 'None' if draw is None else '(Some (%s, %s, %s, %s))' % (fq(draw['x']), fq(draw['y']), fq(draw['w']), fq(draw['h']))
+    if u['tag'] == 'marker' and draw is not None:
+        # an outside marker is shifted by a transform at draw time: its horizontal placement is not judged here
+        box = dict(box, cx=draw['x'])
+    return '((%s, %s), (%s, %s, %s), (%s, 0, %s, %s), (%s, %s), (%s, %s), (%d%%nat, %s, %s, %s, %s), (%s, %s), %s, %s)' % (
+        oq(cw), oq(ch), oq(i3[0]), oq(i3[1]), oq(i3[2]), qlit(F(CBW)), qlit(minw), qlit(minh), oq(maxw), oq(maxh),
+        fq(box['w']), fq(box['h']), FITS.index(u['fit']), blit(u['right']), blit(u['bottom']), lp(u['px']), lp(u['py']),
+        fq(box['cx']), fq(box['cy']), blit(spec['kind'] != 'svg'), d)
+
+
+def box_dims(u, which):
+    w, h = F(u['W']), F(u['H'])
+    if which in ('padding-box', 'border-box'):
+        w, h = w + 2 * u['P'], h + 2 * u['P']
+    if which == 'border-box':
+        w, h = w + 2 * u['B'], h + 2 * u['B']
+    off = {'border-box': 0, 'padding-box': u['B'], 'content-box': u['B'] + u['P']}[which]
+    return w, h, F(off)
+
+
+def coq_bgmon_case(u, spec, layer, draw):
+    res = F(u['res']) if u['res'] and spec['kind'] != 'svg' else F(1)
+    i3 = intrinsic_of(spec, res)
+    pw, ph, off = box_dims(u, u['origin'])
+    paw, pah, _ = box_dims(u, u['clip'])
+    size = {'cover': 'BCover', 'contain': 'BContain'}.get(u['size']) if isinstance(u['size'], str) else \
+        '(BSize %s %s)' % (olp(u['size'][0]), olp(u['size'][1]))
+    if layer is None or layer['unused']:
+        out = 'None'
+        ox, oy = off, F(0)
+    else:
+        ox, oy = F(layer['positioning'][0]), F(layer['positioning'][1])
+        tile = 'None' if draw is None else '(Some (%s, %s, %s, %s))' % (fq(draw['x']), fq(draw['y']), fq(draw['w']), fq(draw['h']))
+        steps = 'None' if draw is None or draw['pattern'] is None else '(Some (%s, %s))' % (
+            fq(draw['pattern']['xstep']), fq(draw['pattern']['ystep']))
+        out = '(Some ((%s), %s, %s))' % (', '.join(fq(v) for v in layer['size'] + layer['position']), tile, steps)
+    return '((%s, %s, %s), %s, (%s, %s), (%s, %s), (%s, %s), (%d%%nat, %d%%nat), (%s, %s), (%s, %s), %s)' % (
+        oq(i3[0]), oq(i3[1]), oq(i3[2]), size, qlit(pw), qlit(ph), blit(u['right']), blit(u['bottom']), lp(u['px']), lp(u['py']),
+        REPS.index(u['rx']), REPS.index(u['ry']), qlit(paw), qlit(pah), qlit(ox), qlit(oy), out)
+
+
+def mon_fail(run, what, d, extra, sig):
+    run.fail(what, dict(stream='render-monitor', html=d['html'], images=d['images'], pdf_options=d['pdf_options'],
+                        uses=d['uses'], **extra),
+             signature=sig)
+
+
+def monitor_prepare(run, docs, outs):
+    mon_cases, mon_meta, bg_cases, bg_meta = [], [], [], []
+    n_x = n_draws = n_svg = 0
+    seen = set()
+    def fail(what, d, extra, sig):
+        mon_fail(run, what, d, extra, sig)
+    for d, (st, o) in zip(docs, outs):
+        if st != 'ok':
+            fail('render raised %s' % (o if st == 'timeout' else (o['type'], o['site'], o['msg'])), d, {'outcome': str(o)[:800]},
+                 'crash:%s' % ((o or {}).get('site'),) if st == 'exc' else 'timeout')
+            continue
+        if o['pdf_problems']:
+            fail('PDF structure problems: %s' % o['pdf_problems'], d, {}, 'c13:pdf-structure')
+        uses = {u['id']: u for u in d['uses']}
+        boxes = {}
+        for b in o['boxes']:
+            if b['id'] in uses:
+                boxes.setdefault(b['id'], []).append(b)
+        lossy_jpeg = 'jpeg_quality' in d['pdf_options'] or (d['pdf_options'].get('optimize_images')
+                                                          and not OPTIMIZE_IS_LOSSLESS_FOR_JPEG)
+        lossy_all = 'dpi' in d['pdf_options']
+        # draws <-> owners (call order)
+        if len(o['draw_log']) != len(o['draws']):
+            fail('%d RasterImage.draw calls but %d image Do operators in the PDF' % (len(o['draw_log']), len(o['draws'])), d, {},
+                 'c13:draw-count')
+            continue
+        by_owner = {}
+        for owner, dr in zip(o['draw_log'], o['draws']):
+            if owner is not None:
+                by_owner.setdefault(owner[1], []).append(dr)
+            if dr['skew'] != [0.0, 0.0]:
+                fail('image drawn with a skewed matrix', d, {'draw': dr}, 'c13:skew')
+        n_draws += len(o['draws'])
+        expected_x = set()
+        # replaced boxes
+        for uid, u in uses.items():
+            spec = d['images'][u['name']]
+            if u['kind'] == 'replaced':
+                bl = boxes.get(uid, [])
+                if len(bl) != 1:
+                    fail('element #%s gave %d replaced boxes' % (uid, len(bl)), d, {'element': uid}, 'c13:box-count')
+                    continue
+                b = bl[0]
+                drs = by_owner.get(b['key'], [])
+                if len(drs) > 1:
+                    fail('box #%s painted %d times' % (uid, len(drs)), d, {'element': uid}, 'c13:painted-twice')
+                dr = drs[0] if drs else None
+                if spec['kind'] == 'svg':
+                    n_svg += 1
+                mon_cases.append(coq_mon_case(u, spec, b, dr))
+                mon_meta.append((d, uid))
+                seen.add((u['tag'], u['display'], u['width'] and u['width'][0], u['height'] and u['height'][0], u['fit'],
+                          spec['kind'], spec.get('mode'), u['definite']))
+                if dr is not None:
+                    expected_x.add((u['name'], not u['pixelated']))
+                    xo = o['xobjects'].get(str(dr['obj'])) or o['xobjects'].get(dr['obj'])
+                    check_xobject(fail, d, uid, u['name'], spec, xo, lossy_jpeg, lossy_all)
+            else:
+                layers = [l for l in o['bgs'] if l['id'] == uid]
+                layer = layers[0] if layers else None
+                drs = by_owner.get(layer['key'], []) if layer and not layer['unused'] else []
+                dr = drs[0] if drs else None
+                if spec['kind'] == 'svg':
+                    dr = None if layer is None or layer['unused'] else 'svg'
+                if layer is None:
+                    fail('no background layer for #%s' % uid, d, {'element': uid}, 'c13:bg-missing')
+                    continue
+                if dr == 'svg':
+                    # vector image: layer geometry only (no image XObject); give the judge the model's own tile
+                    bg_cases.append(coq_bgmon_case(u, spec, dict(layer, size=layer['size'], position=layer['position']), None)
+                                    .replace(', None, None))', ', None, None))'))
+                    bg_meta.append((d, uid, True))
+                else:
+                    bg_cases.append(coq_bgmon_case(u, spec, layer, dr))
+                    bg_meta.append((d, uid, False))
+                    if dr is not None:
+                        expected_x.add((u['name'], not u['pixelated']))
+                        xo = o['xobjects'].get(str(dr['obj'])) or o['xobjects'].get(dr['obj'])
+                        check_xobject(fail, d, uid, u['name'], spec, xo, lossy_jpeg, lossy_all)
+                seen.add(('bg', u['rx'], u['ry'], u['size'] if isinstance(u['size'], str) else 'pair', u['origin'], u['clip'], spec['kind']))
+        # each distinct image embedded once
+        n_x += len(o['xobjects'])
+        if len(o['xobjects']) != len(expected_x):
+            fail('%d image XObjects in the PDF for %d distinct (image, interpolate) painted: %s' % (
+                len(o['xobjects']), len(expected_x), sorted(expected_x)), d, {'xobjects': o['xobjects']}, 'c13:embedded-once')
+        # every image fetched once
+        for name in set(o['fetched']):
+            if o['fetched'].count(name) != 1:
+                fail('image %s fetched %d times' % (name, o['fetched'].count(name)), d, {}, 'c13:fetched-once')
+    return dict(evals=[('mon', mon_cases, mon_meta, 'mon_case', 'monitor_judge'),
+                       ('bgmon', bg_cases, bg_meta, 'bgmon_case', 'bgmon_judge')],
+                n_x=n_x, n_draws=n_draws, n_svg=n_svg, seen=seen)
+
+
+def monitor_finish(run, docs, mon):
+    def fail(what, d, extra, sig):
+        mon_fail(run, what, d, extra, sig)
+    n_x, n_draws, n_svg, seen = mon['n_x'], mon['n_draws'], mon['n_svg'], mon['seen']
+    mon_cases, bg_cases = mon['evals'][0][1], mon['evals'][1][1]
+    for (tag, cases, meta, ctype, judge), fut in zip(mon['evals'], mon['futures']):
+        try:
+            masks = fut.result()
+        except RuntimeError as exc:
+            run.oblige('monitor:' + tag, False, str(exc))
+            continue
+        names = {1: 'used size / layer differs from the model', 2: 'violates the CSS specification',
+                 4: 'painted rectangle in the PDF differs from the model'}
+        reported = set()
+        for m, meta, case in zip(masks, meta, cases):
+            svg_bg = tag == 'bgmon' and meta[2]
+            if svg_bg:
+                m &= ~4
+            for bitv, what in names.items():
+                if m & bitv and (tag, bitv) not in reported:
+                    reported.add((tag, bitv))
+                    fail('%s #%s: %s' % ('replaced box' if tag == 'mon' else 'background', meta[1], what), meta[0],
+                         {'element': meta[1], 'coq_case': case, 'mask': m}, 'c13:monitor-%s-%d' % (tag, bitv))
+        run.oblige('monitor:%s evaluated' % tag, True, '')
+    run.count('render-monitor', len(docs), seen, samples=[docs[0]['html'][:700]])
+    run.stream_info('render-monitor', replaced_boxes=len(mon_cases), background_layers=len(bg_cases), image_draws=n_draws,
+                    image_xobjects=n_x, svg_uses=n_svg,
+                    rule='documents with 2-4 generated images (PNG L/LA/RGB/RGBA/P(+tRNS)/1, JPEG L/RGB/CMYK, SVG with/without '
+                         'width/height/viewBox) served from memory, used 3-7 times as img/object/embed/content/list-style-image/'
+                         'background with width/height/min/max in {auto,px,%}, every object-fit, object-position, image-resolution, '
+                         'image-rendering, background-size/position/repeat/origin/clip; options optimize_images/jpeg_quality/dpi; '
+                         'distinct = (use kind, display, units, fit, image kind, mode)')
+
+
+def check_xobject(fail, d, uid, name, spec, xo, lossy_jpeg, lossy_all):
+    if xo is None or 'error' in xo:
+        fail('image XObject of #%s cannot be decoded: %s' % (uid, xo), d, {'element': uid}, 'c13:xobject-decode')
+        return
+    if lossy_all or (lossy_jpeg and spec['kind'] == 'jpeg'):
+        return
+    if name not in xo['match']:
+        fail('image XObject painted for #%s (%s %s) does not decode to the pixels/alpha of its source (matches %s)' % (
+            uid, spec['kind'], spec.get('mode'), xo['match']), d, {'element': uid, 'xobject': xo}, 'c13:lossless')
+
+
 # ------------------------------------------------------------------------------------------------ streams
 
 def has_float(out):
     return out != 'raise' and any(isinstance(x, str) and x.startswith('f:') for x in out)
 
 
-def direct_stream(run, name, impl_fn, cases, to_coq, case_type, judge, key, what):
-    """run the implementation, judge inside Coq; returns list of (case, out, mask)"""
-    outs = common.run_impl('impl_c13', impl_fn, cases)
-    coq_cases, kept = [], []
-    for c, (st, o) in zip(cases, outs):
-        if st != 'ok':
-            run.fail('%s raised %s' % (impl_fn, o), {'stream': name, 'case': c, 'outcome': o}, signature='c13:%s-raise' % name)
-            continue
-        t = to_coq(c, o)
-        if t is None:
-            continue
-        coq_cases.append(t); kept.append((c, o))
-    try:
-        masks = common.eval_cases('c13' + name.replace('-', ''), PRE, case_type, coq_cases, judge)
-    except RuntimeError as exc:
-        run.oblige('corr:' + name, False, str(exc))
-        return []
-    mism = [(c, o) for (c, o), m in zip(kept, masks) if m & 1]
-    run.oblige('corr:%s(hand model vs CPython, exact rationals)' % name, not mism, 'first disagreements: %s' % mism[:3])
-    for (c, o), m in zip(kept, masks):
-        if m & 2:
-            run.fail('%s: implementation output violates %s' % (impl_fn, what), {'stream': name, 'case': c, 'impl_output': o},
-                     signature='c13:%s-spec' % name)
-            break
-    run.count(name, len(kept), [key(c, o) for c, o in kept],
-              samples=[{'case': kept[0][0], 'impl': kept[0][1]}, {'case': kept[-1][0], 'impl': kept[-1][1]}] if kept else [])
-    return [(c, o, m) for (c, o), m in zip(kept, masks)]
+class Job:
+    """one direct-call stream: cases -> implementation outputs (one shared worker pool) -> Coq judge (concurrent)"""
+    def __init__(self, name, impl_fn, cases, to_coq, case_type, judge, key, what, info=None):
+        self.name, self.impl_fn, self.cases, self.to_coq = name, impl_fn, cases, to_coq
+        self.case_type, self.judge, self.key, self.what, self.info = case_type, judge, key, what, info
+        self.outs = self.future = None
+        self.kept, self.coq_cases = [], []
+
+    def prepare(self, run):
+        for c, (st, o) in zip(self.cases, self.outs):
+            if st != 'ok':
+                run.fail('%s raised %s' % (self.impl_fn, o), {'stream': self.name, 'case': c, 'outcome': o},
+                         signature='c13:%s-raise' % self.name)
+                continue
+            t = self.to_coq(c, o)
+            if t is None:
+                continue
+            self.coq_cases.append(t); self.kept.append((c, o))
+
+    def finish(self, run):
+        name, kept = self.name, self.kept
+        try:
+            masks = self.future.result()
+        except RuntimeError as exc:
+            run.oblige('corr:' + name, False, str(exc))
+            return
+        mism = [(c, o) for (c, o), m in zip(kept, masks) if m & 1]
+        run.oblige('corr:%s(hand model vs CPython, exact rationals)' % name, not mism, 'first disagreements: %s' % mism[:3])
+        for (c, o), m in zip(kept, masks):
+            if m & 2:
+                run.fail('%s: implementation output violates %s' % (self.impl_fn, self.what),
+                         {'stream': name, 'case': c, 'impl_output': o}, signature='c13:%s-spec' % name)
+                break
+        run.count(name, len(kept), [self.key(c, o) for c, o in kept],
+                  samples=[{'case': kept[0][0], 'impl': kept[0][1]}, {'case': kept[-1][0], 'impl': kept[-1][1]}] if kept else [])
+        extra = self.info([(c, o, m) for (c, o), m in zip(kept, masks)]) if self.info else {}
+        run.stream_info(name, **extra)
 
 
 def nonepat(c):
@@ -301,65 +725,104 @@ def nonepat(c):
 
 
 def check(run):
+    import time
+    from concurrent.futures import ThreadPoolExecutor
     rng = random.Random(run.seed * 7919 + 13)
     thorough = run.tier == 'thorough'
     k = 8 if thorough else 1
     common.prove(run, 'C13', ['model/C13Judge.vo'])
     run.trusted += ['Coq 8.16.1 kernel (coqc); vm_compute for the cases.v evaluation',
                     'hand-written Gallina models (coq/model/C13*.v) tied to /repo only by the correspondence streams',
-                    'harness stubs (SimpleNamespace/Fraction), the PDF reader in impl_c13.py, Pillow and zlib as decoders']
-    # ---- direct streams
-    direct_stream(run, 'constraint-direct', 'constraint', gen_constraint(rng, 700 * k),
-                  lambda c, o: '(%s, %s, %s, %s, %s)' % (qlit(F(c['cw'])), qlit(F(c['ch'])), oq(c['ir']), blit(c['cover']), pair_out(o)),
-                  'Q * Q * oq * bool * option (Q * Q)', 'constraint_judge',
-                  lambda c, o: (c['ir'] is None, c['cover'], o == 'raise', F(c['cw']) > F(c['ch']) * F(c['ir'] or 1), c['cw'], c['ch']),
-                  'contain/cover (inside/covering, touching, ratio)')
-    run.stream_info('constraint-direct', rule='108 small combinations (ratio None/0/negative included) + random rationals; '
-                    'distinct = (ratio None?, cover, raises, wider-than-ratio, cw, ch)')
-    direct_stream(run, 'default-sizing-direct', 'default_sizing', gen_default(rng, 900 * k),
-                  lambda c, o: '((%s, %s, %s), %s, %s, %s, %s, %s)' % (
-                      oq(c['iw']), oq(c['ih']), oq(c['ir']), oq(None if c['sw'] == 'auto' else c['sw']),
-                      oq(None if c['sh'] == 'auto' else c['sh']), qlit(F(c['dw'])), qlit(F(c['dh'])), pair_out(o)),
-                  '(oq * oq * oq) * oq * oq * Q * Q * option (Q * Q)', 'default_judge',
-                  lambda c, o: (nonepat(c), c['sw'] in (None, 'auto'), c['sh'] in (None, 'auto'), o == 'raise', c['dw']),
-                  'n/a')
-    run.stream_info('default-sizing-direct', rule='12 intrinsic triples x {None, auto, value} specified sizes exhaustively + random; '
-                    'distinct = (None pattern, specified pattern, raises, default width)')
-    res = direct_stream(run, 'sizing-direct', 'sizing', gen_sizing(rng, 3000 * k), coq_sizing_case, SIZING_T, 'sizing_judge',
-                        lambda c, o: (c['fn'], nonepat(c), c['bw'] is None, c['bh'] is None, o == 'raise', has_float(o),
-                                      c['maxw'] is None, c['maxh'] is None, c['minw'] == '0', c['minh'] == '0', c['bw'], c['bh']),
-                        'CSS 2.1 10.3.2/10.6.2/10.4 (css_used_size_fn / table_fn)')
-    run.stream_info('sizing-direct', rule='replaced_box_width/height (raw and decorated), min_max_auto_replaced, '
-                    'inline_replaced_box_width_height on stub boxes: 12 intrinsic triples x auto patterns x 12 min/max situations '
-                    'exhaustively (sampled) + zero sizes + random rationals; distinct = (function, None pattern, auto pattern, '
-                    'raises, 1e-6 path, which min/max are set, sizes)',
-                    raises=sum(1 for c, o, m in res if o == 'raise'), float_path=sum(1 for c, o, m in res if has_float(o)))
-    direct_stream(run, 'layout-direct', 'rb_layout', gen_layout(rng, 1500 * k), coq_layout_case, LAYOUT_T, 'layout_judge',
-                  lambda c, o: (c['fit'], nonepat(c), c['right'], c['bottom'], c['px'][0], c['py'][0], o == 'raise', c['bw'], c['bh']),
-                  'object-fit / object-position (contain inside, cover covers, scale-down, alignment, inside content box)')
-    bg_stream(run, rng, k)
-    stream_streams(run, rng, k)
-    run.stream_info('layout-direct', rule='replacedbox_layout on stub boxes: 12 intrinsic triples x 5 object-fit x origins x '
-                    'px/% positions exhaustively + random; distinct = (fit, None pattern, origins, units, raises, box size)')
+                    'harness stubs (SimpleNamespace/Fraction); harness/pdfread.py, the content-stream walker and PNG un-predictor '
+                    'in impl_c13.py; Pillow and zlib as decoders of the embedded streams and of the sources',
+                    'observation points wrapped from the worker process: draw.draw_replacedbox, draw.draw_background_image, '
+                    'RasterImage.draw (owner of each image Do)']
+    run.assumptions += ['SVG rendering itself (viewBox-to-viewport mapping inside svg/) is not judged: for vector images only the used '
+                        'size / background layer geometry is checked',
+                        'pixel-level losslessness, Pillow, zlib: runtime monitor only (decoded XObject = Pillow decoding of the source)',
+                        'the 300x150 fallback is not clipped to the device size (CSS 2.1 "should"); a zero intrinsic ratio raises '
+                        '(ZeroDivisionError) and float inf ratios of zero-height rasters are outside the rational model',
+                        'horizontal placement of outside list markers, image-orientation and border-image are not covered']
+    jobs = [
+        Job('constraint-direct', 'constraint', gen_constraint(rng, 700 * k),
+            lambda c, o: '(%s, %s, %s, %s, %s)' % (qlit(F(c['cw'])), qlit(F(c['ch'])), oq(c['ir']), blit(c['cover']), pair_out(o)),
+            'Q * Q * oq * bool * option (Q * Q)', 'constraint_judge',
+            lambda c, o: (c['ir'] is None, c['cover'], o == 'raise', F(c['cw']) > F(c['ch']) * F(c['ir'] or 1), c['cw'], c['ch']),
+            'contain/cover (inside/covering, touching, ratio)'),
+        Job('default-sizing-direct', 'default_sizing', gen_default(rng, 900 * k),
+            lambda c, o: '((%s, %s, %s), %s, %s, %s, %s, %s)' % (
+                oq(c['iw']), oq(c['ih']), oq(c['ir']), oq(None if c['sw'] == 'auto' else c['sw']),
+                oq(None if c['sh'] == 'auto' else c['sh']), qlit(F(c['dw'])), qlit(F(c['dh'])), pair_out(o)),
+            '(oq * oq * oq) * oq * oq * Q * Q * option (Q * Q)', 'default_judge',
+            lambda c, o: (nonepat(c), c['sw'] in (None, 'auto'), c['sh'] in (None, 'auto'), o == 'raise', c['dw']), 'n/a'),
+        Job('sizing-direct', 'sizing', gen_sizing(rng, 3000 * k), coq_sizing_case, SIZING_T, 'sizing_judge',
+            lambda c, o: (c['fn'], nonepat(c), c['bw'] is None, c['bh'] is None, o == 'raise', has_float(o),
+                          c['maxw'] is None, c['maxh'] is None, c['minw'] == '0', c['minh'] == '0', c['bw'], c['bh']),
+            'CSS 2.1 10.3.2/10.6.2/10.4 (css_used_size_fn / table_fn)',
+            lambda res: dict(raises=sum(1 for c, o, m in res if o == 'raise'), float_path=sum(1 for c, o, m in res if has_float(o)))),
+        Job('layout-direct', 'rb_layout', gen_layout(rng, 1500 * k), coq_layout_case, LAYOUT_T, 'layout_judge',
+            lambda c, o: (c['fit'], nonepat(c), c['right'], c['bottom'], c['px'][0], c['py'][0], o == 'raise', c['bw'], c['bh']),
+            'object-fit / object-position (contain inside, cover covers, scale-down, alignment, inside content box)'),
+        bg_job(rng, k)] + stream_jobs(rng, k)
+    rules = {
+        'constraint-direct': '108 small combinations (ratio None/0/negative included) + random rationals; '
+                             'distinct = (ratio None?, cover, raises, wider-than-ratio, cw, ch)',
+        'default-sizing-direct': '12 intrinsic triples x {None, auto, value} specified sizes exhaustively + random; '
+                                 'distinct = (None pattern, specified pattern, raises, default width)',
+        'sizing-direct': 'replaced_box_width/height (raw and decorated), min_max_auto_replaced, inline_replaced_box_width_height on '
+                         'stub boxes: 12 intrinsic triples x auto patterns x 12 min/max situations exhaustively (sampled) + zero '
+                         'sizes + random rationals; distinct = (function, None pattern, auto pattern, raises, 1e-6 path, which '
+                         'min/max are set, sizes)',
+        'layout-direct': 'replacedbox_layout on stub boxes: 12 intrinsic triples x 5 object-fit x origins x px/% positions '
+                         'exhaustively + random; distinct = (fit, None pattern, origins, units, raises, box size)',
+        'background-direct': 'layout_background_layer + draw_background_image on stub boxes/streams: 9 intrinsic triples x 7 sizes x '
+                             '16 repeat pairs exhaustively (sampled) + random sizes/positions/areas; distinct = (None pattern, size '
+                             'kind, repeats, outcome, units, area)',
+        'add-image-direct': 'random sequences of 0..30 Stream.add_image calls over 2-4 image ids (prefix-related ids included), both '
+                            'interpolate flags, few dpi ratios; distinct = (id set, calls, entries)',
+        'use-references-direct': '1..9 resource dictionaries (page, groups, patterns) naming 1..6 images, processed by '
+                                 'pdf._use_references with counting stub images; distinct = (dictionaries, keys, references)'}
+    docs = fixed_docs() + [gen_monitor_doc(rng) for _ in range(200 * k)]
+    # ---- one worker pool for every implementation call
+    t0 = time.time()
+    allc = [dict(fn=j.impl_fn, case=c) for j in jobs for c in j.cases]
+    allc += [dict(fn='render_images', case=dict(images=d['images'], html=d['html'], pdf_options=d['pdf_options'])) for d in docs]
+    outs = common.run_impl('impl_c13', 'dispatch', allc, limit=60, chunksize=4)
+    pos = 0
+    for j in jobs:
+        j.outs = outs[pos:pos + len(j.cases)]
+        pos += len(j.cases)
+    mon_outs = outs[pos:]
+    t1 = time.time()
+    # ---- Coq judges, concurrently
+    with ThreadPoolExecutor(max_workers=6) as ex:
+        for j in jobs:
+            j.prepare(run)
+            j.future = ex.submit(common.eval_cases, 'c13' + j.name.replace('-', ''), PRE, j.case_type, j.coq_cases, j.judge)
+        mon = monitor_prepare(run, docs, mon_outs)
+        mon['futures'] = [ex.submit(common.eval_cases, 'c13' + tag, PRE, ctype, cases, judge)
+                          for tag, cases, meta, ctype, judge in mon['evals']]
+    for j in jobs:
+        j.finish(run)
+        run.stream_info(j.name, rule=rules[j.name])
+    monitor_finish(run, docs, mon)
+    run.stream_info('render-monitor', impl_wall_s_all_streams=round(t1 - t0, 1), coq_wall_s_all_streams=round(time.time() - t1, 1))
 
 
-def bg_stream(run, rng, k):
+def bg_job(rng, k):
     def sk(c, o):
         size = c['size'] if isinstance(c['size'], str) else tuple(None if v is None else v[0] for v in c['size'])
         return (nonepat(c), size, c['rx'], c['ry'], o if isinstance(o, str) else 'layer', c['px'][0], c['py'][0], c['pw'], c['ph'])
-    res = direct_stream(run, 'background-direct', 'bg_layer', gen_bg(rng, 1500 * k), coq_bg_case, 'bg_case', 'bg_judge', sk,
-                        'background-size/position/repeat (contain, cover, round fills, space distributes, alignment)')
-    run.stream_info('background-direct', rule='layout_background_layer + draw_background_image on stub boxes/streams: 9 intrinsic '
-                    'triples x 7 sizes x 16 repeat pairs exhaustively (sampled) + random sizes/positions/areas; distinct = '
-                    '(None pattern, size kind, repeats, outcome, units, area)',
-                    raises=sum(1 for c, o, m in res if o == 'raise'), unused=sum(1 for c, o, m in res if o == 'unused'))
+    return Job('background-direct', 'bg_layer', gen_bg(rng, 1500 * k), coq_bg_case, 'bg_case', 'bg_judge', sk,
+               'background-size/position/repeat (contain, cover, round fills, space distributes, alignment)',
+               lambda res: dict(raises=sum(1 for c, o, m in res if o == 'raise'), unused=sum(1 for c, o, m in res if o == 'unused')))
 
 
 def slit(x):
     return '"%s"' % x
 
 
-def stream_streams(run, rng, k):
+def stream_jobs(rng, k):
     # ---- Stream.add_image: random call sequences over few ids (collisions likely), prefix-related ids included
     cases = []
     idsets = [['aa', 'bb', 'cc'], ['a', 'a1', 'a0', '1a'], ['d41d8cd98f00b204e9800998ecf8427e', '0cc175b9c0f1b6a831c399e269772661'],
@@ -377,11 +840,9 @@ def stream_streams(run, rng, k):
                                   for n, i, b, rs in o['images'])
         xo = '[%s]' % '; '.join(slit(x) for x in o['xobjects'])
         return '(%s, %s, %s, %s)' % (calls, names, imgs, xo)
-    direct_stream(run, 'add-image-direct', 'add_images', cases, to_coq, 'list call * list string * list entry * list string',
-                  'stream_judge', lambda c, o: (tuple(c['ids']), len(c['calls']), len(o['images'])),
-                  'image_embedded_once (one entry per (id, interpolate), names returned)')
-    run.stream_info('add-image-direct', rule='random sequences of 0..30 Stream.add_image calls over 2-4 image ids (prefix-related '
-                    'ids included), both interpolate flags, few dpi ratios; distinct = (id set, calls, entries)')
+    j1 = Job('add-image-direct', 'add_images', cases, to_coq, 'list call * list string * list entry * list string',
+             'stream_judge', lambda c, o: (tuple(c['ids']), len(c['calls']), len(o['images'])),
+             'image_embedded_once (one entry per (id, interpolate), names returned)')
     cases = []
     for n in range(200 * k):
         keys = ['k%d' % i for i in range(rng.choice([1, 2, 3, 6]))]
@@ -392,14 +853,83 @@ def stream_streams(run, rng, k):
         if not o['same']:
             counts = '[("different references", 0%nat, 0%nat)]'
         return '(%s, %s)' % (ds, counts)
-    direct_stream(run, 'use-references-direct', 'use_refs', cases, to_coq2, 'list (list string) * list (string * nat * nat)',
-                  'refs_judge', lambda c, o: (len(c['dicts']), len(o['keys']), sum(len(d) for d in c['dicts'])),
-                  'each image XObject built and added to the PDF once')
-    run.stream_info('use-references-direct', rule='1..9 resource dictionaries (page, groups, patterns) naming 1..6 images, processed '
-                    'by pdf._use_references with counting stub images; distinct = (dictionaries, keys, references)')
+    j2 = Job('use-references-direct', 'use_refs', cases, to_coq2, 'list (list string) * list (string * nat * nat)',
+             'refs_judge', lambda c, o: (len(c['dicts']), len(o['keys']), sum(len(d) for d in c['dicts'])),
+             'each image XObject built and added to the PDF once')
+    return [j1, j2]
+
+
+class _ReplayRun:
+    """collects what a Run would report, for --replay"""
+    def __init__(self):
+        self.fails, self.obl = [], []
+    def fail(self, what, data, signature=None):
+        self.fails.append((what, signature))
+    def oblige(self, name, ok, detail=''):
+        self.obl.append((name, ok, detail))
+    def count(self, *a, **k):
+        pass
+    def stream_info(self, *a, **k):
+        pass
 
 
 def replay(data):
+    from concurrent.futures import ThreadPoolExecutor
     d = data.get('data', {})
-    print('nothing to replay for', d.get('stream'))
-    return 0
+    stream = d.get('stream')
+    rr = _ReplayRun()
+    if stream == 'render-monitor':
+        def tup(u):
+            u = dict(u)
+            for k in ('width', 'height', 'minw', 'minh', 'maxw', 'maxh', 'px', 'py'):
+                if isinstance(u.get(k), list):
+                    u[k] = tuple(u[k])
+            if isinstance(u.get('size'), list):
+                u['size'] = [None if v is None else tuple(v) for v in u['size']]
+            return u
+        doc = dict(images=d['images'], html=d['html'], pdf_options=d['pdf_options'], uses=[tup(u) for u in d['uses']])
+        outs = common.run_impl('impl_c13', 'render_images', [dict(images=doc['images'], html=doc['html'], pdf_options=doc['pdf_options'])])
+        mon = monitor_prepare(rr, [doc], outs)
+        with ThreadPoolExecutor(2) as ex:
+            mon['futures'] = [ex.submit(common.eval_cases, 'c13r' + tag, PRE, ctype, cases, judge)
+                              for tag, cases, meta, ctype, judge in mon['evals']]
+        monitor_finish(rr, [doc], mon)
+    else:
+        rng = random.Random(0)
+        jobs = {j.name: j for j in [
+            Job('constraint-direct', 'constraint', [],
+                lambda c, o: '(%s, %s, %s, %s, %s)' % (qlit(F(c['cw'])), qlit(F(c['ch'])), oq(c['ir']), blit(c['cover']), pair_out(o)),
+                'Q * Q * oq * bool * option (Q * Q)', 'constraint_judge', lambda c, o: 0, 'contain/cover'),
+            Job('default-sizing-direct', 'default_sizing', [],
+                lambda c, o: '((%s, %s, %s), %s, %s, %s, %s, %s)' % (
+                    oq(c['iw']), oq(c['ih']), oq(c['ir']), oq(None if c['sw'] == 'auto' else c['sw']),
+                    oq(None if c['sh'] == 'auto' else c['sh']), qlit(F(c['dw'])), qlit(F(c['dh'])), pair_out(o)),
+                '(oq * oq * oq) * oq * oq * Q * Q * option (Q * Q)', 'default_judge', lambda c, o: 0, 'n/a'),
+            Job('sizing-direct', 'sizing', [], coq_sizing_case, SIZING_T, 'sizing_judge', lambda c, o: 0, 'CSS 2.1 10.3.2/10.6.2/10.4'),
+            Job('layout-direct', 'rb_layout', [], coq_layout_case, LAYOUT_T, 'layout_judge', lambda c, o: 0, 'object-fit/position'),
+            Job('background-direct', 'bg_layer', [], coq_bg_case, 'bg_case', 'bg_judge', lambda c, o: 0, 'background layer')]
+            + stream_jobs(rng, 0)}
+        j = jobs.get(stream)
+        if j is None or 'case' not in d:
+            print('nothing to replay for', stream)
+            return 0
+        c = d['case']
+        for k in ('px', 'py'):
+            if isinstance(c.get(k), list):
+                c[k] = tuple(c[k])
+        if isinstance(c.get('size'), list):
+            c['size'] = [None if v is None else tuple(v) for v in c['size']]
+        j.cases = [c]
+        j.outs = common.run_impl('impl_c13', j.impl_fn, [c])
+        print('replay: implementation output', j.outs)
+        j.prepare(rr)
+        with ThreadPoolExecutor(1) as ex:
+            j.future = ex.submit(common.eval_cases, 'c13r' + j.name.replace('-', ''), PRE, j.case_type, j.coq_cases, j.judge)
+        j.finish(rr)
+    bad = [o for o in rr.obl if not o[1]]
+    for w, sg in rr.fails:
+        print('replay: FAIL', w[:400])
+    for n, ok, det in bad:
+        print('replay: BROKEN', n, det[:600])
+    print('replay:', 'reproduced' if (rr.fails or bad) else 'not reproduced')
+    return 1 if (rr.fails or bad) else 0
